@@ -128,3 +128,14 @@ Theorem C10_text_to_rules :
          map (fun r : ruledef => (r_lhs r, rsyms (r_rhs r))) (flat_map group_rules (s_groups sp)).
 Proof. exact ParserRoundtripRules.text_rules. Qed.
 Print Assumptions C10_text_to_rules.
+
+From YG Require Import Lexer YParser Front ParsedNames.
+Close Scope Z_scope.
+Open Scope nat_scope.
+
+(* no rule read from a text is headed by a symbol called dollar (identifiers start with a letter or underscore, left-hand sides are identifier tokens) *)
+Theorem C10_no_dollar_head :
+  forall (s : list Ascii.ascii) (a : ast),
+         parse_text s = PAst a -> forall r : ruledef, In r (a_rules a) -> r_lhs r <> dollar_name.
+Proof. exact ParsedNames.parse_text_lhs. Qed.
+Print Assumptions C10_no_dollar_head.
